@@ -39,12 +39,12 @@ type MV struct {
 	Vals []*MV
 }
 
-func mvNull() *MV            { return &MV{K: KNull} }
-func mvBool(b bool) *MV      { return &MV{K: KBool, B: b} }
-func mvInt(i int64) *MV      { return &MV{K: KInt, I: i} }
-func mvUint(u uint64) *MV    { return &MV{K: KUint, U: u} }
-func mvFloat(f float64) *MV  { return &MV{K: KFloat, F: f} }
-func mvString(s []byte) *MV  { return &MV{K: KString, S: append([]byte(nil), s...)} }
+func mvNull() *MV               { return &MV{K: KNull} }
+func mvBool(b bool) *MV         { return &MV{K: KBool, B: b} }
+func mvInt(i int64) *MV         { return &MV{K: KInt, I: i} }
+func mvUint(u uint64) *MV       { return &MV{K: KUint, U: u} }
+func mvFloat(f float64) *MV     { return &MV{K: KFloat, F: f} }
+func mvString(s []byte) *MV     { return &MV{K: KString, S: append([]byte(nil), s...)} }
 func (m *MV) isContainer() bool { return m.K == KArray || m.K == KObject }
 
 // Clone deep-copies m.
@@ -101,42 +101,42 @@ func numAsFloat(m *MV) (float64, bool) {
 	return 0, false
 }
 
-func numEqual(a, b *MV) bool {
-	// exact integer comparisons first
-	if a.K == KFloat || b.K == KFloat {
-		fa, _ := numAsFloat(a)
-		fb, _ := numAsFloat(b)
-		if a.K == KFloat && b.K == KFloat {
-			return fa == fb || (math.IsNaN(fa) && math.IsNaN(fb))
-		}
-		// one float, one integer: the float must be integral and convert back exactly
-		f, o := a, b
-		if b.K == KFloat {
-			f, o = b, a
-		}
-		if f.F != math.Trunc(f.F) {
-			return false
-		}
-		switch o.K {
+// numEqual reports whether got denotes the number the model value want holds. JSON text carries no
+// number type: a float is printed shortest-round-trip (C18), so its text may re-parse as an integer whose
+// exact value differs from the float's exact value while still rounding to the same float64. Hence: a
+// float in the model is matched by any number that converts to exactly that float64; an integer in the
+// model must be matched exactly.
+func numEqual(want, got *MV) bool {
+	switch want.K {
+	case KFloat:
+		switch got.K {
+		case KFloat:
+			return want.F == got.F || (math.IsNaN(want.F) && math.IsNaN(got.F))
 		case KInt:
-			return f.F >= -9223372036854775808.0 && f.F < 9223372036854775808.0 && int64(f.F) == o.I
+			return float64(got.I) == want.F
 		case KUint:
-			return f.F >= 0 && f.F < 18446744073709551616.0 && uint64(f.F) == o.U
+			return float64(got.U) == want.F
 		}
-		return false
+	case KInt:
+		switch got.K {
+		case KInt:
+			return want.I == got.I
+		case KUint:
+			return want.I >= 0 && uint64(want.I) == got.U
+		case KFloat:
+			return got.F == math.Trunc(got.F) && got.F >= -9223372036854775808.0 && got.F < 9223372036854775808.0 && int64(got.F) == want.I && float64(want.I) == got.F
+		}
+	case KUint:
+		switch got.K {
+		case KUint:
+			return want.U == got.U
+		case KInt:
+			return got.I >= 0 && uint64(got.I) == want.U
+		case KFloat:
+			return got.F == math.Trunc(got.F) && got.F >= 0 && got.F < 18446744073709551616.0 && uint64(got.F) == want.U && float64(want.U) == got.F
+		}
 	}
-	if a.K == KInt && b.K == KInt {
-		return a.I == b.I
-	}
-	if a.K == KUint && b.K == KUint {
-		return a.U == b.U
-	}
-	// int vs uint
-	i, u := a, b
-	if a.K == KUint {
-		i, u = b, a
-	}
-	return i.I >= 0 && uint64(i.I) == u.U
+	return false
 }
 
 // Diff returns "" when a and b are equal under mode, otherwise a description of the first difference.
